@@ -810,8 +810,18 @@ pub fn run_check(spec: &CheckSpec, tier: Tier, seed: u64, verif_dir: &str) -> i3
             println!("WARNING: {} stuck at zero", k);
         }
     }
+    // One line per listed finding (a finding may cover several concrete
+    // classes through its `*`).
+    let mut by_finding: BTreeMap<String, (u64, Vec<String>, String)> = BTreeMap::new();
     for (k, (v, n)) in &total.known {
-        println!("KNOWN-FINDING: property={} {} ({} runs; e.g. {})", spec.property, k, n, v.detail.replace('\n', " "));
+        let pat = super::findings::matching_pattern(k).unwrap_or_else(|| k.clone());
+        let e = by_finding.entry(pat).or_insert((0, Vec::new(), v.detail.replace('\n', " ")));
+        e.0 += n;
+        e.1.push(k.clone());
+    }
+    for (pat, (n, classes, example)) in &by_finding {
+        let ex: String = example.chars().take(400).collect();
+        println!("KNOWN-FINDING: property={} {} (seen in {} runs as {} concrete class(es); e.g. {})", spec.property, pat, n, classes.len(), ex);
     }
     if let Some((v, path)) = violation_line {
         println!("violation class: {}", v.class());
